@@ -22,8 +22,11 @@ for p in props:
     import ast
     for node in ast.parse(src).body:
         if isinstance(node, ast.Assign) and isinstance(node.targets[0], ast.Name) and \
-                node.targets[0].id in ("LEVEL_TEXT", "LEVEL_NOTE", "TECHNIQUE", "DESIGN_REF", "ID"):
+                node.targets[0].id in ("LEVEL_TEXT", "LEVEL_NOTE", "TECHNIQUE", "DESIGN_REF", "ID", "READY"):
             ns[node.targets[0].id] = ast.literal_eval(node.value)
+    if not ns.get("READY"):
+        na.append({"property_id": pid, "reason": na_reasons["reasons"].get(pid, "check under construction, not yet sound enough to register (see DESIGN.md section 7)")})
+        continue
     checks.append({
         "property_id": pid,
         "quick_cmd": "./check %s --tier quick" % pid,
@@ -48,4 +51,16 @@ m = {
     "not_applicable": na,
 }
 json.dump(m, open(os.path.join(V, "MANIFEST.json"), "w"), indent=1)
+# merge staged known-findings files into the single committed file
+kd = os.path.join(V, "known_findings.d")
+kf = os.path.join(V, "known_findings.json")
+main = json.load(open(kf))
+if os.path.isdir(kd):
+    for fn in sorted(os.listdir(kd)):
+        if fn.endswith(".json"):
+            for e in json.load(open(os.path.join(kd, fn))).get("findings", []):
+                if not any(x["property"] == e["property"] and x["sig"] == e["sig"] for x in main["findings"]):
+                    main["findings"].append(e)
+            os.unlink(os.path.join(kd, fn))
+    json.dump(main, open(kf, "w"), indent=1)
 print("checks:", [c["property_id"] for c in checks], "not_applicable:", len(na))
